@@ -27,12 +27,17 @@ run("git checkout -- .")
 rc, out = run("git -C /repo status --short")
 assert out.strip() == "", "/repo is dirty: " + out
 rc, out = run("git -C /repo apply %s/patch.diff" % src); assert rc == 0, "patch does not apply to /repo HEAD: " + out
+evp = "/verif/evidence/%s.json" % prop
+saved_ev = open(evp, "rb").read() if os.path.exists(evp) else None
 try:
     t0 = time.time()
     rc, out = run("./check %s --tier quick" % prop, cwd="/verif", timeout=3000)
     ran["check_quick"] = {"rc": rc, "wall_s": round(time.time() - t0, 1), "lines": [l[:300] for l in out.splitlines() if l.startswith(("VIOLATION", "KNOWN", prop))]}
 finally:
     run("git -C /repo checkout -- .")
+    # the evidence file must describe a run on the unchanged tree: put the previous one back
+    if saved_ev is not None:
+        open(evp, "wb").write(saved_ev)
 dst = "/verif/seeded/%s-%s" % (prop, n)
 os.makedirs(dst, exist_ok=True)
 for f in os.listdir(src):
